@@ -7,6 +7,7 @@ import re
 
 from ..builtin import BUILTINS, check_functions, compare_with_spec
 from ..cfg import cfg_of
+from ..expand import expanded
 from ..flow import FlowExpander
 from ..index import AnalysisError, function_stmts, walk_no_nested
 from ..preds import PredError, decision_table
@@ -198,6 +199,7 @@ def r4_twins(ctx):
         if fa is None or fb is None:
             raise AnalysisError(f"twin function {fname} missing")
         ctx.touched(fa, fb)
+        fa, fb = expanded(ix, fa), expanded(ix, fb)   # private helpers next to the function belong to it
         ca, cb = cfg_of(fa.node), cfg_of(fb.node)
         va, vb = _twin_view(fa), _twin_view(fb)
         sa = {}
@@ -215,12 +217,12 @@ def r4_twins(ctx):
                    f"pandas reaches it under {[show_condition(x) for x in ga]}, polars under {[show_condition(x) for x in gb]}")
     # top-level guards that disable the stage entirely (early `return check_obj`)
     for fname_a, fname_b in (("add_missing_columns", "add_missing_columns"), ("strict_filter_columns", "strict_filter_columns")):
-        fa, fb = pdc.lookup(fname_a), plc.lookup(fname_b)
+        fa, fb = expanded(ix, pdc.lookup(fname_a)), expanded(ix, plc.lookup(fname_b))
         ea, eb = _early_return_tests(fa), _early_return_tests(fb)
         ctx.ob("R4", fb, f"{fname_a}: stage-disabled condition", ea == eb and bool(ea),
                f"both return the input untouched under {ea}" if ea == eb else f"pandas {ea}, polars {eb}")
     # parser stages
-    va, vb = pdc.lookup("validate"), plc.lookup("validate")
+    va, vb = expanded(ix, pdc.lookup("validate")), expanded(ix, plc.lookup("validate"))
     stages = []
     for f in (va, vb):
         loops = callable_list_loops(f)
